@@ -704,7 +704,7 @@ func init() {
 			cs = append(cs, cl.VerifDump())
 		}
 		sort.Strings(cs)
-		return b.s.VerifInfo() + " wills=[" + b.s.VerifWillDelayed() + "] " + strings.Join(cs, " | ")
+		return b.s.VerifInfo() + " wills=[" + b.s.VerifWillDelayed() + "] " + strings.Join(cs, " | ") + " V[actual " + b.s.VerifActual() + "]"
 	}
 	_ = bytes.NewBuffer
 }
